@@ -33,7 +33,7 @@ def _bases(tier):
 
 def model(tier, rep):
     r = vlib.tlc_mc("IntConv.tla", "IntConv.cfg", "intconv_mc_" + tier, workers=8 if tier == "quick" else 12,
-                    constants=CONSTS[tier], heap="3g", timeout=2400)
+                    constants=CONSTS[tier], heap="2g", timeout=2400)
     rep.add_mc("IntConv", r)
     gen = r["gen"]
     if not gen:
@@ -101,7 +101,7 @@ def execute_and_validate(tier, js, binary, impl, wave=16):
             stderr_lines += [l for l in err.splitlines() if l.startswith(("UNSUPPORTED", "CRASH"))]
         paths = [t[1] for t in tasks]
         tv = vlib.tv_parallel("IntConvTrace.tla", "IntConvTrace.cfg", paths, "intconv_tv_%s_%s_%d" % (impl, tier, w),
-                              par=6 if tier == "quick" else 8, heap="2g")
+                              par=6 if tier == "quick" else 8, heap="1500m")
         total["events"] += tv["events"]
         total["deviations"] += tv["deviations"]
         total["wall"] += tv["wall"]
